@@ -51,6 +51,11 @@ KINDS = {
 
 
 def make_op(kind, q, link, circ, tag=''):
+    if kind[0] == '@':   # catalog kind: '@ClassName' (every field non-default) or '@ClassName:d' (defaults)
+        from mc import opcatalog
+        name, _, var = kind[1:].partition(':')
+        op, _unknown = opcatalog.construct(opcatalog.by_name()[name], q, link, circ, 'default' if var == 'd' else 'nondefault')
+        return op
     kw = {} if link is None else {'relation': link}
     name = KINDS[kind][0]
     if kind == 'M':
